@@ -1,7 +1,8 @@
 SPECIFICATION MCLiveSpec
 CONSTANTS
-  MC_Ns = {1, 2, 3, 4, 5}
+  MC_Ns = {1, 2, 3, 4}
   MC_Topos <- ToposAll
+  MC_MaxFail = 1
   Defect_HandoffLost = FALSE
   YieldTransparent = FALSE
   KeepHist = FALSE
@@ -11,6 +12,7 @@ INVARIANTS
   C13_HandoffShape
   C13_NoDrop
   C13_FIFO
+  C13_ErrIffFails
   C13_QueuesInOrder
   C13_ExactlyOnce
 PROPERTIES
